@@ -128,6 +128,12 @@ Json gen(uint64_t seed, const std::string &tier)
             for (unsigned i = 0; i < r * c; i++)
                 el.push((long long)g.below(npool));
             o["elems"] = el;
+            // two different entries that agree in everything a hash reads:
+            // k and 2^64 + k (Integer::__hash__ takes the low 64 bits)
+            if (g.chance(1, 4))
+                o["twin"] = (long long)g.range(-20, 20);
+            else
+                o["twin"] = 1000;
         } else if (g.chance(1, 2)) {
             // loads that fail (a torn copy of a valid dump), in a burst: the
             // failures are fine, the round trips after them must not notice
@@ -300,6 +306,17 @@ void exec(Run &run)
                 v.push_back(pool[el.size() ? (size_t)el[i % el.size()].as_int()
                                                  % pool.size()
                                            : 0]);
+            if (o.geti("twin", 1000) != 1000 && v.size() >= 2) {
+                long k = (long)o.geti("twin");
+                integer_class big(1);
+                big = big << 64;
+                big = big + integer_class(k);
+                v[0] = integer(k);
+                v[v.size() - 1] = integer(big);
+                if (v.size() >= 3 && (k & 1)) // and the same pair inside sums
+                    v[1] = add(integer(big), simx::sym_n(0)), v[0] = add(integer(k), simx::sym_n(0));
+                run.probe("matrix_entries_with_colliding_hashes");
+            }
             DenseMatrix m(r, c, v);
             std::string bytes;
             try {
